@@ -148,7 +148,7 @@ Pop ==
        /\ redo'  = [redo EXCEPT ![h] = EmptyLayer]
   /\ chain' = Front(chain)
   /\ cache' = IF ~FixCache THEN cache                      \* F3
-              ELSE IF GhostCache THEN {[id |-> c.id, to |-> 0 - 1, raw |-> EmptyLayer] : c \in cache}
+              ELSE IF GhostCache THEN {[id |-> c.id, to |-> IF c.to >= 0 THEN 0 - 1 - c.to ELSE c.to, raw |-> c.raw] : c \in cache}
               ELSE {}
   /\ res' = "ok"
   /\ UNCHANGED views
